@@ -2,7 +2,11 @@ package props
 
 import (
 	"fmt"
+	"os"
+	"os/exec"
 	"reflect"
+	"strconv"
+	"strings"
 
 	"github.com/free5gc/ike/message"
 	"github.com/free5gc/ike/security"
@@ -312,6 +316,7 @@ func c11(c *core.Ctx) {
 		}
 	})
 	c11Proposals(c)
+	c11FirstCalls(c)
 }
 
 func scribbleTransform(t *message.Transform) {
@@ -400,6 +405,141 @@ func c11Names(k *core.Case, chk func(name string, tr *message.Transform, fi int,
 			}
 		}
 	}
+}
+
+// ---------------------------------------------------------------------------
+// first call in a fresh process: the mapping must not depend on which entry point of an algorithm package happens to
+// be used first (registration done lazily, or by another entry point).  FirstCall(i) is run by `vharness firstcall i`
+// as the very first use of the library in that process; the family below starts one process per entry.
+
+type firstCall struct {
+	name string
+	f    func() string // "" = as the table says
+}
+
+func firstCalls() []firstCall {
+	var l []firstCall
+	tv := func(typ uint8, id uint16, keyBits int) *message.Transform {
+		t := &message.Transform{TransformType: typ, TransformID: id}
+		if keyBits > 0 {
+			t.AttributePresent, t.AttributeFormat, t.AttributeType, t.AttributeValue = true, 1, 14, uint16(keyBits)
+		}
+		return t
+	}
+	dec := func(fi int, t *message.Transform, want decoded) {
+		l = append(l, firstCall{fmt.Sprintf("%s(id %d, key bits %d)", decFns[fi].name, t.TransformID, t.AttributeValue), func() string {
+			if got := decFns[fi].f(t); got != want {
+				return fmt.Sprintf("got %+v want %+v", got, want)
+			}
+			return ""
+		}})
+	}
+	for _, kb := range []int{128, 192, 256} {
+		dec(0, tv(1, 12, kb), decoded{true, 12, kb / 8, 0})
+		dec(1, tv(1, 12, kb), decoded{true, 12, kb / 8, 0})
+	}
+	for _, id := range []uint16{1, 2, 12} {
+		dec(2, tv(3, id, 0), decoded{true, id, tblIntegKey[id], tblIntegOut[id]})
+		dec(3, tv(3, id, 0), decoded{true, id, tblIntegKey[id], 0})
+	}
+	for _, id := range []uint16{1, 2, 5} {
+		dec(4, tv(2, id, 0), decoded{true, id, tblPrfKey[id], tblPrfOut[id]})
+	}
+	for _, id := range []uint16{2, 14} {
+		dec(5, tv(4, id, 0), decoded{true, id, 0, 0})
+	}
+	for _, id := range []uint16{0, 1} {
+		dec(6, tv(5, id, 0), decoded{true, id, 0, 0})
+	}
+	name := func(n string, f func() bool) {
+		l = append(l, firstCall{n, func() string {
+			if !f() {
+				return "advertised name not known"
+			}
+			return ""
+		}})
+	}
+	for kl, n := range libsa.EncrNames {
+		n, kl := n, kl
+		name("encr.StrToType("+n+")", func() bool { t := encr.StrToType(n); return t != nil && t.GetKeyLength() == kl })
+		name("encr.StrToKType("+n+")", func() bool { t := encr.StrToKType(n); return t != nil && t.GetKeyLength() == kl })
+	}
+	for _, n := range libsa.IntegNames {
+		n := n
+		name("integ.StrToType("+n+")", func() bool { return integ.StrToType(n) != nil })
+		name("integ.StrToKType("+n+")", func() bool { return integ.StrToKType(n) != nil })
+	}
+	for _, n := range libsa.PrfNames {
+		n := n
+		name("prf.StrToType("+n+")", func() bool { return prf.StrToType(n) != nil })
+	}
+	for _, n := range libsa.DhNames {
+		n := n
+		name("dh.StrToType("+n+")", func() bool { return dh.StrToType(n) != nil })
+	}
+	for _, id := range []uint16{1, 2, 12} {
+		id := id
+		l = append(l, firstCall{fmt.Sprintf("NewChildSAKeyByProposal(AES-CBC-128, integ %d, no ESN)", id), func() string {
+			p := &message.Proposal{ProposalNumber: 1, ProtocolID: 3, SPI: []byte{1, 2, 3, 4},
+				EncryptionAlgorithm:     message.TransformContainer{tv(1, 12, 128)},
+				IntegrityAlgorithm:      message.TransformContainer{tv(3, id, 0)},
+				ExtendedSequenceNumbers: message.TransformContainer{tv(5, 0, 0)}}
+			ck, err := security.NewChildSAKeyByProposal(p)
+			if err != nil || ck == nil || ck.IntegKInfo == nil || ck.IntegKInfo.TransformID() != id || ck.EncrKInfo.GetKeyLength() != 16 {
+				return fmt.Sprintf("advertised ESP proposal refused / mapped wrongly: %v", err)
+			}
+			return ""
+		}})
+	}
+	l = append(l, firstCall{"NewIKESAKey(AES-CBC-256, SHA2-256-128, PRF-SHA2-256, MODP-2048)", func() string {
+		p := &message.Proposal{ProposalNumber: 1, ProtocolID: 1,
+			EncryptionAlgorithm:  message.TransformContainer{tv(1, 12, 256)},
+			PseudorandomFunction: message.TransformContainer{tv(2, 5, 0)},
+			IntegrityAlgorithm:   message.TransformContainer{tv(3, 12, 0)},
+			DiffieHellmanGroup:   message.TransformContainer{tv(4, 14, 0)}}
+		key, pub, err := security.NewIKESAKey(p, make([]byte, 256), []byte("nonces"), 1, 2)
+		if err != nil || key == nil || len(pub) != 256 || len(key.SK_ei) != 32 || len(key.SK_ai) != 32 || len(key.SK_d) != 32 {
+			return fmt.Sprintf("advertised IKE proposal refused / mapped wrongly: %v", err)
+		}
+		return ""
+	}})
+	return l
+}
+
+// FirstCall runs entry i as the first library call of this process.
+func FirstCall(i int) string {
+	l := firstCalls()
+	if i < 0 || i >= len(l) {
+		return "FIRSTCALL none"
+	}
+	bad := ""
+	if p := core.Try(func() { bad = l[i].f() }); p != nil {
+		bad = "panic: " + p.Value
+	}
+	if bad != "" {
+		return "FIRSTCALL bad " + l[i].name + ": " + bad
+	}
+	return "FIRSTCALL ok " + l[i].name
+}
+
+func c11FirstCalls(c *core.Ctx) {
+	n := len(firstCalls())
+	c.Family("first-call-in-a-fresh-process", n, func(k *core.Case) {
+		k.Eval(1)
+		cmd := exec.Command(os.Args[0], "firstcall", strconv.Itoa(k.Index))
+		out, err := cmd.CombinedOutput()
+		line := strings.TrimSpace(string(out))
+		switch {
+		case err == nil && strings.HasPrefix(line, "FIRSTCALL ok"):
+			k.Count("first_calls_ok", 1)
+			k.Distinct("firstcall|" + strings.TrimPrefix(line, "FIRSTCALL ok "))
+		case strings.HasPrefix(line, "FIRSTCALL bad"):
+			k.Violate("mapping", "first-call-in-a-fresh-process-differs: "+classifyErr(fmt.Errorf("%s", strings.SplitN(strings.TrimPrefix(line, "FIRSTCALL bad "), "(", 2)[0])), line, M{"entry": k.Index})
+		default:
+			k.Inconclusive("first-call child %d: %v %s", k.Index, err, clipS(line, 300))
+		}
+	})
+	c.Require("first_calls_ok")
 }
 
 func c11Proposals(c *core.Ctx) {
